@@ -751,6 +751,107 @@ def jobs_for(check, mirror, rb, crate, crate_num, U, jobs, tier, KNOWN_PRED, sel
     if select is None or 'function_positional_job' in select:
         function_positional_job()
 
+    # ------------------------------------------------------------------------------------------------------------------ user-defined function, named call
+    def function_named_job():
+        NP = U.idx("NamedParameters")
+
+        def setup(ex, st):
+            sref, ctxs = scope_value(ex, st, 1)
+            npar = ex.fresh_int(st, "usize", "n_parameters", constrain=False)
+            ex.assume(st, z3.And(npar.e >= 0, npar.e <= 2))
+            # named arguments for the names 20, 21 and one extra name 25; which of them are present and the order they were written in are symbolic
+            present = [z3.Bool(ex.fresh_name("arg%d_present" % k)) for k in range(3)]
+            pos = [ex.fresh_int(st, "usize", "arg%d_written_at" % k, constrain=False) for k in range(3)]
+            ex.assume(st, z3.And([z3.And(p.e >= 1, p.e <= 3) for p in pos] + [z3.Distinct(*[p.e for p in pos])]))
+            keys = [20, 21, 25]
+            args = [En("Value", z3.IntVal(NUM), {"Number": (Opaque("FeelNumber", z3.IntVal(500 + k)),)}) for k in range(3)]
+            params = [Adt("tuple", None, (Opaque("Name", z3.IntVal(20 + k)), Opaque("FeelType", ("param", k)))) for k in range(2)]
+            body_result = U.fresh(ex, st, 0, "body", kinds=["Number", "Null"])
+            inputs = dict(n_parameters=npar.e, _sref=sref, _ctxs=ctxs, _body=body_result, _present=present)
+            for k in range(3):
+                inputs["arg%d_present" % k] = present[k]
+                inputs["arg%d_written_at" % k] = pos[k].e
+
+            def m_coerced(ex, st, callee, a, dest_ty):
+                ty, v = deref(ex, st, a[0]), deref(ex, st, a[1])
+                res = En("Value", z3.IntVal(U.idx("Irrelevant")), {"Irrelevant": ()})
+                st.log.append(("coerced", ty.e if isinstance(ty, Opaque) else None, v, res))
+                yield st, res
+
+            def m_body(ex, st, callee, a, dest_ty):
+                sc = ex.read(st, sref.cell, sref.projs)
+                vec = sc.fields[0]
+                n = ex.concrete(vec.len)
+                top = vec.items[n - 1].fields[0] if n else None
+                ents = [(ex.concrete(e.fields[0].e), e.fields[1]) for e in top.items[:ex.concrete(top.len)]] if top is not None else None
+                st.log.append(("body", n == 2 and vec.items[0] is ctxs[0], ents))
+                yield st, body_result
+            models = [(re.compile(r"^(dmntk_feel::)?FeelType::coerced$"), m_coerced), (re.compile(r"^(dmntk_feel::)?FunctionBody::evaluate$"), m_body)]
+
+            def runner(ex, st):
+                for m in reversed(models):
+                    ex.models.insert(0, m)
+
+                def rec(st, k, ents):
+                    if k == 3:
+                        mp = fv.MapV(z3.IntVal(len(ents)), ents, "kv")
+                        argv = En("Value", z3.IntVal(NP), {"NamedParameters": (mp,)})
+                        yield from ex.run("eval_function_named", [sref, Ref(ex.new_cell(st, argv, "args")), Ref(ex.new_cell(st, VecV(npar.e, params, "param"), "params")),
+                                                                  Ref(ex.new_cell(st, Opaque("FunctionBody"), "body")), Opaque("FeelType", ("result", 0))], st)
+                        return
+                    for st2 in ex.branch(st, present[k]):
+                        yield from rec(st2, k + 1, ents + [Adt("tuple", None, (Opaque("Name", z3.IntVal(keys[k])), Adt("tuple", None, (args[k], pos[k]))))])
+                    for st2 in ex.branch(st, z3.Not(present[k])):
+                        yield from rec(st2, k + 1, ents)
+                yield from rec(st, 0, [])
+            return runner, None, inputs
+
+        def post(ex, o, v):
+            r = o.value
+            bodies = [e for e in o.st.log if e[0] == "body"]
+            co = [e for e in o.st.log if e[0] == "coerced"]
+            from checks.C13 import scope_unchanged
+            npar = v["n_parameters"]
+            props = [("the caller's scope is restored", scope_unchanged(ex, o.st, v["_sref"], v["_ctxs"]))]
+            missing = z3.Or(z3.And(npar >= 1, z3.Not(v["_present"][0])), z3.And(npar >= 2, z3.Not(v["_present"][1])))
+            props.append(("a parameter without a named argument: null, the body is not evaluated", z3.Implies(missing, z3.And(r.disc == NULL, z3.BoolVal(not bodies)))))
+            if bodies:
+                _, under, ents = bodies[0]
+                m = ex.solver.model() if ex.check() == z3.sat else None
+                k = m.eval(npar, model_completion=True).as_long() if m is not None else -1
+                par_co = [c for c in co if isinstance(c[1], tuple) and c[1][0] == "param"]
+                okb = under and ents is not None and len(ents) == k and len(par_co) == k and \
+                    all(ents[j][0] == 20 + j and ents[j][1] is par_co[j][3] and par_co[j][1] == ("param", j) and
+                        isinstance(par_co[j][2], En) and ex.concrete(par_co[j][2].alts["Number"][0].e) == 500 + j for j in range(k))
+                props.append(("every parameter is bound to the argument carrying ITS NAME (whatever the order the arguments were written in), coerced to its own type",
+                              z3.And(npar == k, z3.BoolVal(bool(okb)))))
+                props.append(("reach:two_parameters", z3.BoolVal(k == 2)))
+            props.append(("reach:missing", missing))
+            return props
+
+        def desc(m, v):
+            d = {"n_parameters": model_value(m, v["n_parameters"])}
+            for k in range(3):
+                d["arg%d_present" % k] = bool(model_value(m, v["arg%d_present" % k]))
+                d["arg%d_written_at" % k] = model_value(m, v["arg%d_written_at" % k])
+            return d
+
+        def replay(i, rb):
+            npar = i["n_parameters"]
+            names = ["p0", "p1", "extra"]
+            ps = names[:npar]
+            given = sorted([(i["arg%d_written_at" % k], names[k], 500 + k) for k in range(3) if i["arg%d_present" % k]])
+            expr = "(function(%s) [%s])(%s)" % (", ".join(ps), ", ".join(ps), ", ".join("%s: %d" % (n, v) for _, n, v in given))
+            got = _native_value(rb, expr)
+            have = {n: v for _, n, v in given}
+            want = "null" if any(p not in have for p in ps) else "[" + ", ".join(str(have[p]) for p in ps) + "]"
+            norm = lambda x: re.sub(r"null\([^)]*\)", "null", x).replace(" ", "")
+            return got.startswith("PANIC") or norm(got) != norm(want), "%s -> %s, specified %s" % (expr, got[:100], want)
+        jobs.append(lambda c: decide(c, crate, "ops/function_named", setup, post, replay, rb, models=MODELS, unwind=24, describe=desc, max_cex=4,
+                                     need_reach=["reach:two_parameters", "reach:missing"], known_predicates=KNOWN_PRED))
+    if select is None or "function_named_job" in select:
+        function_named_job()
+
     # ------------------------------------------------------------------------------------------------------------------ arithmetic dispatch
     def arith_jobs():
         DU = U.dec
